@@ -280,6 +280,7 @@ def run_case(case):  # pylint: disable=too-many-locals,too-many-statements,too-m
     sample = {'actors': [a.name for a in sched.order], 'events': len(trace), 'switches': sched.switches, 'patterns': {k: v for k, v in summary.items() if v},
               'trace_excerpt': [f'{a}:{b}' for a, _, b in trace[:14]]}
     case['_events'] = {a.name: a.events for a in sched.order}
+    case['_trace_sig'] = [(a, k) for a, k, _ in trace]
     return nontrivial, fp, sample, labels
 
 
@@ -420,7 +421,25 @@ def run_shard(ctx):
     quick = ctx.tier == 'quick'
     n = 170 if quick else 20000
     ctx.set_budget(45 if quick else 1100)
-    explore(ctx, strategy(), run_case, n)
+    counter = [0]
+
+    def run_and_probe(case):
+        result = run_case(case)
+        counter[0] += 1
+        if counter[0] % 20 == 0:
+            # determinism probe: the same scenario + schedule must produce the same event trace (one run = a pure function
+            # of code, scenario and schedule); a mismatch is counted in the evidence, it is not a violation
+            first = case.pop('_trace_sig', None)
+            case.pop('_events', None)
+            run_case(case)
+            ctx.stats.label('determinism-probe')
+            if case.get('_trace_sig') != first:
+                ctx.stats.label('determinism-probe:TRACE-DIFFERS')
+        case.pop('_trace_sig', None)
+        case.pop('_events', None)
+        return result
+
+    explore(ctx, strategy(), run_and_probe, n)
     if not ctx.stats.violations:
         ctx.set_budget(40 if quick else 1100)
         exhaustive(ctx, 1 if quick else 2)
